@@ -110,6 +110,9 @@ def run_C09(tier, rnd, st, res):
     from raster_model import correspond_c09, correspond_png
     correspond_c09(cases, st, res)
     correspond_png(cases, st, res, rnd, syms, tier)
+    from raster_docs import correspond_docs, reader_equivalence, NOTES_DOCS
+    reader_equivalence(correspond_docs(cases, st, res, rnd, syms, tier), st, res, rnd, tier)
+    res.notes += NOTES_DOCS
     res.notes += ['png_stream_rows / png_stream_reconstructs / png_palette_sound / png_standin_and_trns / png_model_picture (Props/C09Png.lean): '
                   'the former OPEN obligations PngStreamRows and png_palette are proved for the model Model.writePng / Model.savePng',
                   'Tie B (model = code) covers matrix_iter through the raster of pbm P4/P1, xbm, the complete txt / ansi / compact documents, and '
